@@ -21,12 +21,15 @@ pub struct Case {
     /// place the object at an odd multiple of its alignment (wide-store wipes that assume more are caught)
     #[serde(default)]
     pub misalign: bool,
+    /// the object is owned by a `Box` and the box is dropped; the allocator reports the block's content at `dealloc`
+    #[serde(default)]
+    pub boxed: bool,
 }
 
 fn strategy() -> impl Strategy<Value = Case> {
     let prov = prop_oneof![Just(Provenance::Generated), Just(Provenance::Deserialised), Just(Provenance::Derived), Just(Provenance::Cloned)];
-    (0u8..3, any::<bool>(), prov, gen::seed32(), proptest::option::of(gen::sk_spec()), proptest::option::of(gen::pk_spec()), any::<bool>())
-        .prop_map(|(set, private, prov, seed, structured_sk, structured_pk, misalign)| Case { set, private, prov, seed, structured_sk, structured_pk, misalign })
+    (0u8..3, any::<bool>(), prov, gen::seed32(), proptest::option::of(gen::sk_spec()), proptest::option::of(gen::pk_spec()), any::<bool>(), proptest::bool::weighted(0.35))
+        .prop_map(|(set, private, prov, seed, structured_sk, structured_pk, misalign, boxed)| Case { set, private, prov, seed, structured_sk, structured_pk, misalign, boxed })
 }
 
 pub fn check(c: &Case, st: &mut Stats) -> CheckResult {
@@ -44,7 +47,7 @@ pub fn check(c: &Case, st: &mut Stats) -> CheckResult {
         None
     };
     let xi = c.seed.bytes();
-    let probe = g("drop", || libr.drop_probe(private, c.prov, &xi, structured.as_deref(), c.misalign))?;
+    let probe = g("drop", || libr.drop_probe(private, c.prov, &xi, structured.as_deref(), c.misalign, c.boxed))?;
     let Some(pr) = probe else {
         st.class("skipped:bytes_rejected");
         return Ok(());
@@ -53,7 +56,7 @@ pub fn check(c: &Case, st: &mut Stats) -> CheckResult {
     let kind = if private { "PrivateKey" } else { "PublicKey" };
     let tag = format!("set{}:{kind}:{:?}", p.id, c.prov);
     st.class(&tag);
-    st.class(if c.misalign { "placement:odd multiple of the alignment" } else { "placement:128-byte aligned" });
+    st.class(if c.boxed { "placement:Box (observed by the allocator at dealloc)" } else if c.misalign { "placement:odd multiple of the alignment" } else { "placement:128-byte aligned" });
     // expected object size: no padding, every byte belongs to a field
     let expect = if private { 128 + 1024 * (p.l + 2 * p.k) } else { 96 + 1024 * p.k };
     if pr.size != expect {
